@@ -21,8 +21,10 @@ type Interruption struct {
 	At      int
 	Silence time.Duration
 	Timeout bool // "i/o timeout" instead of io.EOF
+	Mixed   bool // EOF and "i/o timeout" results alternate while the silence lasts
 	Fatal   bool // some other read error: the reader must stop
 	fired   bool
+	polls   int
 }
 
 var ErrTimeout = errors.New("read /dev/ttyS0: i/o timeout")
@@ -84,7 +86,8 @@ func (r *Source) Read(p []byte) (int, error) {
 			if r.active.Silence < 0 || time.Now().Before(r.silentTo) || !r.active.fired {
 				r.active.fired = true
 				r.pollCost()
-				if r.active.Timeout {
+				r.active.polls++
+				if r.active.Timeout != (r.active.Mixed && r.active.polls%2 == 0) {
 					r.Timeouts++
 					return 0, ErrTimeout
 				}
